@@ -179,7 +179,7 @@ func (x *Exec) guardCheck(st *State, key string, addr *Term, write bool) {
 	// objects allocated by this very call are still private to it
 	goal := BoolLit(ok)
 	if !ok {
-		goal = Not(Select(Var("alloc0", ArrOf(SBool)), addr))
+		goal = Not(allocAt(Var("alloc0", SInt), addr))
 	}
 	label := fmt.Sprintf("%s %s@%s", mode, shortKey(key), x.siteLabelOrFunc())
 	x.oblige(x.curFrame, st, "guarded", label, goal, x.curNode)
